@@ -208,8 +208,20 @@ def kv_queries(pid='C01'):
     return qs
 
 
+def view_queries():
+    u = tree_unit('db', 'base', 2)
+    qs = []
+    for h, depth, quick, what in (('view_ins_i4_4', 2, True, 'full I4, ONE insert of any other key (growth to I16, prefix split, leaf split, duplicate)'), ('view_rem_i16_5', 2, True, 'min-size I16, ONE remove of any other key (shrink to I4)'),
+                                  ('view_rem_collapse', 3, False, 'holder next to a two-child inner node, ONE remove of any other key (collapse)'), ('view_ins_collapse', 3, False, 'same tree, ONE insert of any other key'),
+                                  ('view_ins_leaf', 2, False, 'root leaf, ONE insert of any other key (leaf split)')):
+        qs.append(Query(h, u, h, unwind=10, checks='pointer', flags=['--slice-formula'], loop_bounds=[('::(get|insert|remove)_internal', depth + 1)], tier='quick' if quick else 'thorough', mem_gb=30, weight=2,
+                        about='db: a value view taken by get() is re-read through the original pointer after %s with a fully symbolic 64-bit key; CBMC pointer checks flag a view into a freed or moved leaf' % what,
+                        bounds={'symbolic_ops': 1, 'key_bits': 64}))
+    return qs
+
+
 def c01():
-    qs = tree_queries('db', 'base') + node_queries('base') + big_queries('db', 'base') + kv_queries()
+    qs = tree_queries('db', 'base') + node_queries('base') + big_queries('db', 'base') + kv_queries() + view_queries()
     qs += tree_queries('mutex', 'base', quick_set={'get_leaf', 'get_i4_3', 'get_2lvl', 'get_3lvl', 'ins_leaf', 'rem_leaf', 'rem_i4_2'})
     # OLC index, one registered thread: only the lookups fit (insert/remove with a symbolic key: > 24 GB, measured); the write paths of the OLC index run with concrete keys in C03/C04/C14
     qs += [q for q in tree_queries('olc', 'nostats', quick_set={'get_i4_3', 'get_2lvl'}) if q.entry.startswith('get_')]
